@@ -5,6 +5,7 @@ import (
 	"fmt"
 	"io"
 	"net"
+	"os"
 	"sync"
 	"time"
 
@@ -22,6 +23,14 @@ import (
 func init() {
 	mlog.SetOutput(io.Discard)
 	mlog.SetLevel("FATAL")
+	if p := os.Getenv("VERIF_MLOG"); p != "" {
+		// debugging aid: the project's own log, at debug level, into a file
+		if f, err := os.Create(p); err == nil {
+			mlog.SetOutput(f)
+			mlog.SetLevel("DEBUG")
+			mlog.SetFormatter(&mlog.DaemonFormatter{})
+		}
+	}
 }
 
 // UserSpec is one registered user.
